@@ -26,6 +26,7 @@ def run(ctx):
             eng = "numpy" if rng.random() < 0.7 else "normal"
             ev = lastext.read_event("C05", inst, concrete, engines=(eng,))
             events.append(ev)
+            lastext.engine_drift(ctx, inst, ev, eng)
             meta.append({"tag": inst["tag"], "engine": eng, "concrete": concrete})
             ctx.evaluations += 1
             ctx.case([inst["tag"], [l for l in concrete.splitlines() if l.startswith("~")]])
